@@ -2,6 +2,9 @@ use crate::core::{Ctx, Report};
 use serde_json::Value;
 
 pub mod bddsweep;
+pub mod bddmid;
+pub mod sddmid;
+pub mod wide;
 pub mod c01;
 pub mod c02;
 pub mod c03;
